@@ -291,7 +291,7 @@ def _get_prev_line(lines: list[str], violation_line: int) -> str | None:
 
 def _matches_ignore_next_line_rules(prev_line: str, rule_id: str) -> bool:
     """Check if ignore-next-line directive matches the rule."""
-    match = re.search(r"ignore-next-line\[([^\]]+)\]", prev_line)
+    match = re.search(r"ignore-next-line\[([^\]]+)\]", prev_line, re.IGNORECASE)
     if match:
         return check_bracket_rules(match.group(1), rule_id)
     return True
